@@ -530,6 +530,32 @@ def directed(run, name):
                 run.violation(f"C09|{name}|harness-or-library-error|{type(e).__name__}", f"{name}: unexpected {type(e).__name__}: {str(e)[:120]}", dict(tb=traceback.format_exc()[-900:]))
 
 
+def boundary_defaults(run, names):
+    """window-only step after a default that sits on a boundary (incl. the hard minimum, which is 0 for sun_md5_crypt): the
+    inherited default has to be clipped into the new window although the step itself names no default"""
+    for name in names:
+        if not H.usable(name):
+            continue
+        rng = run.rng("boundary:" + name)
+        lo, hi = CHEAP[name]
+        odd = name.endswith("bsdi_crypt")
+        mid = (lo + hi) // 2
+        if odd:
+            mid |= 1
+        for first, second in [(dict(default_rounds=lo, max_rounds=hi), dict(min_rounds=mid, max_rounds=hi)),
+                              (dict(default_rounds=lo, max_rounds=hi), dict(min_rounds=mid)),
+                              (dict(default_rounds=hi, max_rounds=hi), dict(min_rounds=lo, max_rounds=mid)),
+                              (dict(default_rounds=hi, max_rounds=hi), dict(max_rounds=mid)),
+                              (dict(rounds=lo), dict(min_rounds=mid, max_rounds=hi)),
+                              (dict(default_rounds=lo, max_rounds=hi, vary_rounds=0), dict(min_rounds=mid, max_rounds=hi, vary_rounds=0))]:
+            try:
+                chain(run, rng, name, forced=[first, second])
+                run.count("boundary_default_chains")
+            except Exception as e:
+                import traceback
+                run.violation(f"C09|{name}|harness-or-library-error|{type(e).__name__}", f"{name}: unexpected {type(e).__name__}: {str(e)[:120]}", dict(tb=traceback.format_exc()[-900:]))
+
+
 def body(run):
     names = [n for n in H.names() if H.usable(n)]
     # hashers whose default cost is expensive and that have no cheap range are only taken through non-cost settings
@@ -541,6 +567,9 @@ def body(run):
     order = sorted(use, key=lambda n: (("bcrypt" in n) + (n in CHEAP), n))
     run.parallel("checks.c09", "work", [dict(names=order[i::16], n_chains=n_chains) for i in range(16)], timeout=900 if run.tier == "quick" else 5400)
     run.parallel("checks.c09", "directed", [dict(name="bcrypt_sha256"), dict(name="cisco_type7")], timeout=900)
+    cheap = sorted(n for n in use if n in CHEAP)
+    run.parallel("checks.c09", "boundary_defaults", [dict(names=cheap[i::8]) for i in range(8)], timeout=900)
+    run.require("boundary_default_chains", 60)
     run.require("directed_chains", 200)
     run.require("pinned_offset_checks", 50)
     run.require("steps", 1500 if run.tier == "quick" else 20000)
